@@ -27,7 +27,8 @@ Inductive val : Type :=
 | VArr (es : list val)
 | VSlice (base : path) (off len cap : nat) (* elements base.[off] .. base.[off+len-1]; nil slice = cap 0 *)
 | VMap (l : loc)
-| VPtr (p : path).
+| VPtr (p : path)
+| VBox (tag : nat) (v : val).             (* a non-nil interface value: dynamic type tag and the boxed value tree *)
 
 Inductive cell := CVal (v : val) | CMap (kvs : list (Z * val)).
 Definition heap := list cell.
@@ -186,6 +187,9 @@ with rv :=
 | RCap (e : rv)
 | RSlice (b : rv) (lo hi mx : orv) (* b[lo:hi:mx]; b a slice value or a pointer to an array (arr[..] = (&arr)[..]) *)
 | RMapGet (m : rv) (k : rv) (zero : val)
+| RBox (tag : nat) (e : rv)     (* conversion to interface{}: boxing copies the value tree (a struct is copied,
+                                   a pointer / slice / map inside keeps its referent) *)
+| RUnbox (tag : nat) (e : rv)   (* type assertion e.(T): panics on nil or on another dynamic type *)
 with rvs := RNone | RCons (e : rv) (r : rvs)
 with orv := ONone | OSome (e : rv).
 
@@ -286,6 +290,10 @@ with g_rv (h : heap) (e : env) (x : rv) {struct x} : option val :=
       | VNil, VInt _ => Some zero
       | _, _ => None
       end
+  | RBox tag x => v <- g_rv h e x ;; Some (VBox tag v)
+  | RUnbox tag x =>
+      v <- g_rv h e x ;;
+      match v with VBox tag' w => if Nat.eqb tag tag' then Some w else None | _ => None end
   end
 with g_rvs (h : heap) (e : env) (xs : rvs) {struct xs} : option (list val) :=
   match xs with
@@ -396,6 +404,7 @@ Inductive ty :=
 | TArr (n : nat) (t : ty)
 | TSlice (t : ty)
 | TMapT (t : ty)       (* keys k0..k3 *)
+| TAny                 (* interface{}: 0 nil, else 1 + dynamic type tag and a shallow print of the boxed value *)
 | TPtrS                (* *S: identity class and the N, A of the target *)
 | TPtrA.               (* *[3]S: identity class and the N of the three elements *)
 
@@ -423,8 +432,33 @@ Variable h : heap.
 Variable cands : list path.    (* &a[0] &a[1] &a[2] &s &sl[0] ... *)
 Variable acand : option path.  (* &a *)
 
+Definition show_ptrS (v : val) : list Z :=
+  match v with
+  | VNil => [0%Z]
+  | VPtr p => [class_of p cands 1; int_at h (sub p 0); int_at h (sub (sub p 1) 0); int_at h (sub (sub p 1) 1)]
+  | _ => [(-7)%Z]
+  end.
+
+Definition show_int (v : val) : Z := match v with VInt z => z | _ => (-7)%Z end.
+
+(** a boxed value: tags 0 int, 1 string key, 2 S (N and A only), 3 *S, 4 []int *)
+Definition show_any (v : val) : list Z :=
+  match v with
+  | VNil => [0%Z]
+  | VBox 0 x => [1%Z; show_int x]
+  | VBox 1 x => [2%Z; show_int x]
+  | VBox 2 (VStruct (n :: VArr [a0; a1] :: _)) => [3%Z; show_int n; show_int a0; show_int a1]
+  | VBox 3 x => 4%Z :: show_ptrS x
+  | VBox 4 (VSlice base off len cap) =>
+      5%Z :: Z.of_nat len :: Z.of_nat cap ::
+      match read_elems h base off len with Some es => map show_int es | None => [(-7)%Z] end
+  | VBox 4 VNil => [5%Z; 0%Z; 0%Z]
+  | _ => [(-7)%Z]
+  end.
+
 Fixpoint show (t : ty) (v : val) {struct t} : list Z :=
   match t with
+  | TAny => show_any v
   | TInt => match v with VInt z => [z] | _ => [(-7)%Z] end
   | TStruct ts =>
       match v with
@@ -461,12 +495,7 @@ Fixpoint show (t : ty) (v : val) {struct t} : list Z :=
           end
       | _ => [(-7)%Z]
       end
-  | TPtrS =>
-      match v with
-      | VNil => [0%Z]
-      | VPtr p => [class_of p cands 1; int_at h (sub p 0); int_at h (sub (sub p 1) 0); int_at h (sub (sub p 1) 1)]
-      | _ => [(-7)%Z]
-      end
+  | TPtrS => show_ptrS v
   | TPtrA =>
       match v with
       | VNil => [0%Z]
@@ -477,12 +506,13 @@ Fixpoint show (t : ty) (v : val) {struct t} : list Z :=
   end.
 End Show.
 
-Definition tS : ty := TStruct [TInt; TArr 2 TInt; TSlice TInt; TMapT TInt; TPtrS].
+Definition tS : ty := TStruct [TInt; TArr 2 TInt; TSlice TInt; TMapT TInt; TPtrS; TAny].
 
 (** the pool: variable ids and types, in dump order *)
 Definition pool_types : list (var * ty) :=
   [(0, TArr 3 tS); (1, tS); (2, TSlice tS); (3, TSlice (TSlice TInt)); (4, TMapT tS);
-   (5, TPtrS); (6, TPtrA); (7, TArr 4 TInt); (8, TSlice TInt); (9, TInt); (10, TInt); (11, TInt)].
+   (5, TPtrS); (6, TPtrA); (7, TArr 4 TInt); (8, TSlice TInt); (9, TInt); (10, TInt); (11, TInt);
+   (12, TArr 3 TAny); (13, TSlice TAny); (14, TMapT TAny); (15, TAny)].
 
 Definition var_path (e : env) (x : var) : option path :=
   match lookup e x with Some l => Some (l, []) | None => None end.
